@@ -19,7 +19,8 @@
 (***************************************************************************)
 EXTENDS Naturals, Integers, Sequences, FiniteSets, TLC, Json, SequencesExt, FiniteSetsExt
 
-CONSTANTS MaxPer, MaxDim, MaxCov, MaxIds, MaxSel
+CONSTANTS MaxPer, MaxDim, MaxCov, MaxIds, MaxSel,
+          BigDims    \* dimensionalities for which the constructor's default selection (all pairs, dimension-major) is checked
 VARIABLES nPer, nDim, nCov, nIds, sel, phase
 vars == <<nPer, nDim, nCov, nIds, sel, phase>>
 Checked == phase = "checked"
@@ -79,8 +80,11 @@ Transpose == Checked =>
               IN G(i, p, d) * (IF SelIndex(p, d) = s THEN Chi(i, c) ELSE 0)])])
 
 ParamName(p) == "Param " \o ToString(p)
-Init == /\ nPer \in 1..MaxPer /\ nDim \in 1..MaxDim /\ nCov \in 1..MaxCov /\ nIds \in 1..MaxIds
-        /\ sel \in UNION {[1..k -> (1..nPer) \X (1..nDim)] : k \in 1..MaxSel}
+\* the default selection made by CovariatePopulationModel: every pair, dimension-major (as passed to the covariate model)
+DMajorAll(np_, nd_) == [q \in 1..(np_ * nd_) |-> <<((q - 1) % np_) + 1, ((q - 1) \div np_) + 1>>]
+Init == /\ \/ /\ nPer \in 1..MaxPer /\ nDim \in 1..MaxDim /\ nCov \in 1..MaxCov /\ nIds \in 1..MaxIds
+              /\ sel \in UNION {[1..k -> (1..nPer) \X (1..nDim)] : k \in 1..MaxSel}
+           \/ /\ nPer = 2 /\ nDim \in BigDims /\ nCov = 1 /\ nIds = 2 /\ sel = DMajorAll(2, nDim)
         /\ phase = "raw"
 Next == phase = "raw" /\ phase' = "checked" /\ UNCHANGED <<nPer, nDim, nCov, nIds, sel>>
 Spec == Init /\ [][Next]_vars
